@@ -243,9 +243,35 @@ impl SubCheck for History {
                 Op::Convert { probe: p2, to_local: d2, new_thread: true },
             ]
         });
+        // three-step history X -> Y -> X (or Z) with long waits: what a cache that remembers the wrong
+        // source after a reload needs in order to show
+        let any_spec = prop_oneof![
+            3 => (0usize..N_CUSTOM).prop_map(Spec::AbsPath),
+            1 => (0usize..N_CUSTOM).prop_map(Spec::ColonAbsPath),
+            1 => (0usize..SYSTEM_ZONES.len()).prop_map(Spec::ZoneName),
+            2 => (0usize..RULES.len()).prop_map(Spec::Rule),
+            1 => Just(Spec::Unset),
+            1 => Just(Spec::Empty),
+            1 => (0usize..GARBAGE.len()).prop_map(Spec::Garbage),
+        ];
+        let template3 = (any_spec.clone(), any_spec.clone(), any_spec, prop::bool::weighted(0.65), 0u8..8, 0u8..8, any::<bool>(), prop_oneof![3 => 1080u32..1200, 1 => 100u32..700])
+            .prop_map(|(x, y, z, back, p1, p2, dir, w2)| {
+                let third = if back { x.clone() } else { z };
+                vec![
+                    Op::SetTz(x),
+                    Op::Convert { probe: p1, to_local: dir, new_thread: false },
+                    Op::SetTz(y),
+                    Op::Wait(1100),
+                    Op::Convert { probe: p2, to_local: !dir, new_thread: false },
+                    Op::SetTz(third),
+                    Op::Wait(w2),
+                    Op::Convert { probe: p1, to_local: dir, new_thread: false },
+                    Op::Convert { probe: p2, to_local: !dir, new_thread: false },
+                ]
+            });
         let free = proptest::collection::vec(op, 3..14);
         Some(
-            prop_oneof![1 => free, 1 => template]
+            prop_oneof![2 => free, 2 => template, 3 => template3]
                 .prop_map(|mut ops| {
                     // at most three long waits per history; make sure it ends with conversions
                     let mut longs = 0;
